@@ -34,6 +34,8 @@ type Options struct {
 	OpName       bool
 	// IDs usable for node(id:) roots
 	IDs []string
+	// MixIntrospection: query operations may carry one simple introspection root field beside the ordinary ones
+	MixIntrospection bool
 	// MetaRoot: select the introspection root fields (__schema, __type) instead of ordinary ones
 	MetaRoot bool
 	// StringPool overrides the pool of String literals / values (e.g. type names for __type(name:))
@@ -45,7 +47,7 @@ type Options struct {
 func DefaultOptions() Options {
 	return Options{OpType: ast.Query, MaxDepth: 3, MaxRoot: 3, Aliases: true, Fragments: true, Variables: true, VarDefaults: true,
 		Directives: true, DirVars: true, DupKeys: true, DupComposite: true, AliasSibling: true, Typename: true, NodeRoot: true,
-		RootTypename: false, VarNamedID: true, MultiOp: true, OpName: true}
+		RootTypename: true, VarNamedID: true, MultiOp: true, OpName: true}
 }
 
 type Op struct {
@@ -230,10 +232,35 @@ func (g *gen) rootSelection(root *ast.Definition) string {
 		}
 	}
 	if g.chance(4, "roottn") {
-		if g.o.RootTypename && !g.o.Avoid["op.rootTypename"] {
+		if g.o.RootTypename && !g.o.Avoid["op.rootTypename"] && root != g.s.Subscription { // a subscription has exactly one root field
 			parts = append(parts, "__typename")
 			g.label("rootTypename")
 		}
+	}
+	if g.o.MixIntrospection && !g.o.MetaRoot && root == g.s.Query && len(parts) > 0 && !g.o.Avoid["op.introspectionMixedWithFields"] && g.chance(6, "mixmeta") {
+		var names []string
+		for n, d := range g.s.Types {
+			if !strings.HasPrefix(n, "__") && d.Kind != ast.Scalar {
+				names = append(names, n)
+			}
+		}
+		sort.Strings(names)
+		names = append(names, "NoSuchType", "String")
+		var m string
+		switch g.pick(3, "metakind") {
+		case 0:
+			m = "__schema { queryType { name } mutationType { name } }"
+		case 1:
+			m = fmt.Sprintf("__type(name: %q) { name kind }", names[g.pick(len(names), "metatype")])
+		default:
+			m = fmt.Sprintf("meta: __type(name: %q) { kind n: name }", names[g.pick(len(names), "metatype")])
+		}
+		if g.chance(50, "metafirst") {
+			parts = append([]string{m}, parts...)
+		} else {
+			parts = append(parts, m)
+		}
+		g.label("introspectionMixedWithFields")
 	}
 	if len(parts) == 0 {
 		return ""
